@@ -35,7 +35,7 @@ var (
 //@ func equals
 //@   props C03 C10
 //@   functional
-//@   ensures result1 == nil && result0 == left+" = "+right
+//@   ensures result1 == nil && verifspec.SameText(result0, left+" = "+right)
 
 //@ func noop
 //@   props C03 C10
@@ -45,32 +45,32 @@ var (
 //@ func inFn
 //@   props C03 C10
 //@   functional
-//@   ensures result1 == nil && result0 == left+" IN "+right
+//@   ensures result1 == nil && verifspec.SameText(result0, left+" IN "+right)
 
 //@ func list
 //@   props C03 C10
 //@   functional
-//@   ensures result1 == nil && result0 == "("+left+")"
+//@   ensures result1 == nil && verifspec.SameText(result0, "("+left+")")
 
 //@ func greater
 //@   props C03 C10
 //@   functional
-//@   ensures result1 == nil && result0 == left+" > "+right
+//@   ensures result1 == nil && verifspec.SameText(result0, left+" > "+right)
 
 //@ func less
 //@   props C03 C10
 //@   functional
-//@   ensures result1 == nil && result0 == left+" < "+right
+//@   ensures result1 == nil && verifspec.SameText(result0, left+" < "+right)
 
 //@ func greaterEq
 //@   props C03 C10
 //@   functional
-//@   ensures result1 == nil && result0 == left+" >= "+right
+//@   ensures result1 == nil && verifspec.SameText(result0, left+" >= "+right)
 
 //@ func lessEq
 //@   props C03 C10
 //@   functional
-//@   ensures result1 == nil && result0 == left+" <= "+right
+//@   ensures result1 == nil && verifspec.SameText(result0, left+" <= "+right)
 
 // IsRegexpText: the quoted text of a /.../ pattern as it reaches like().
 func IsRegexpText(right string) bool {
@@ -86,8 +86,8 @@ func Translate(s string) string {
 //@   props C03 C04 C10
 //@   functional
 //@   ensures result1 == nil
-//@   ensures IsRegexpText(right) ==> result0 == left+" ~ "+right
-//@   ensures !IsRegexpText(right) ==> result0 == left+" SIMILAR TO "+Translate(right)
+//@   ensures IsRegexpText(right) ==> verifspec.SameText(result0, left+" ~ "+right)
+//@   ensures !IsRegexpText(right) ==> verifspec.SameText(result0, left+" SIMILAR TO "+Translate(right))
 
 // ---- ranges: the operand text "[lo, hi]" / "(lo, hi)" is taken apart again ---------------------------
 
@@ -161,7 +161,7 @@ func RangeParamText(left, lo, hi string, inclusive, numeric bool) string {
 //@   requires len(right) >= 2
 //@   ensures  result1 != nil ==> result0 == ""
 //@   ensures[two-items] (result1 != nil) == (len(RangeItems(right)) != 2)
-//@   ensures[range-text] result1 == nil ==> result0 == RangeText(left, RangeLo(right), RangeHi(right), RangeInclusive(right))
+//@   ensures[range-text] result1 == nil ==> verifspec.SameText(result0, RangeText(left, RangeLo(right), RangeHi(right), RangeInclusive(right)))
 
 // ---- the recursive renderer --------------------------------------------------------------------------
 
@@ -349,8 +349,8 @@ func SimpleOperand(in any) bool {
 //@   ensures[boundary-text] IsBoundaryVal(in) && err == nil ==> len(s) >= 4
 //@   ensures[expression-is-rendered] IsExprVal(in) ==> (err == nil) == (RenderErr(b, ExprOf(in)) == nil)
 //@   ensures[boundary-errors-propagate] IsBoundaryVal(in) && err == nil ==> SerializeErr(b, BoundaryOf(in).Min) == nil && SerializeErr(b, BoundaryOf(in).Max) == nil
-//@   ensures[string-quoted] IsStringVal(in) ==> err == nil && s == "'"+strings.ReplaceAll(StringOf(in), "'", "''")+"'"
-//@   ensures[column-quoted] IsColumnVal(in) && err == nil ==> len(ColumnOf(in)) > 0 && !strings.ContainsRune(ColumnOf(in), '"') && s == "\""+ColumnOf(in)+"\""
+//@   ensures[string-quoted] IsStringVal(in) ==> err == nil && verifspec.SameText(s, "'"+strings.ReplaceAll(StringOf(in), "'", "''")+"'")
+//@   ensures[column-quoted] IsColumnVal(in) && err == nil ==> len(ColumnOf(in)) > 0 && !strings.ContainsRune(ColumnOf(in), '"') && verifspec.SameText(s, "\""+ColumnOf(in)+"\"")
 //@   ensures[x-expression-text] IsExprVal(in) ==> s == RenderText(b, ExprOf(in))
 //@   ensures[value-text-nonempty] err == nil && (IsStringVal(in) || IsColumnVal(in) || IsPlainNumber(in) || IsBoundaryVal(in)) ==> s != ""
 //@   loop 0: rangeinv true
@@ -471,7 +471,7 @@ func SerializeParamsText(b Base, in any) string {
 //@   functional
 //@   requires len(params) == 1 ==> IsStringVal(params[0])
 //@   ensures  result1 == nil
-//@   ensures[text] result0 == LikeParamText(left, right, IsRegexpParam(params))
+//@   ensures[text] verifspec.SameText(result0, LikeParamText(left, right, IsRegexpParam(params)))
 
 //@ func rangParam
 //@   props C04 C13 C01
@@ -480,8 +480,8 @@ func SerializeParamsText(b Base, in any) string {
 //@   requires[params-nonempty] len(RangeItems(right)) == 2 && (RangeLo(right) == "?" || RangeHi(right) == "?") ==> len(params) >= 1
 //@   ensures  result1 != nil ==> result0 == ""
 //@   ensures[two-items] (result1 != nil) == (len(RangeItems(right)) != 2)
-//@   ensures[value-independent] result1 == nil && (RangeLo(right) == "?" || RangeHi(right) == "?") ==> result0 == RangeParamText(left, RangeLo(right), RangeHi(right), RangeInclusive(right), IsNumberVal(params[0]))
-//@   ensures[inline-bounds] result1 == nil && !(RangeLo(right) == "?" || RangeHi(right) == "?") ==> result0 == RangeText(left, RangeLo(right), RangeHi(right), RangeInclusive(right))
+//@   ensures[value-independent] result1 == nil && (RangeLo(right) == "?" || RangeHi(right) == "?") ==> verifspec.SameText(result0, RangeParamText(left, RangeLo(right), RangeHi(right), RangeInclusive(right), IsNumberVal(params[0])))
+//@   ensures[inline-bounds] result1 == nil && !(RangeLo(right) == "?" || RangeHi(right) == "?") ==> verifspec.SameText(result0, RangeText(left, RangeLo(right), RangeHi(right), RangeInclusive(right)))
 
 //@ func (Base).RenderParam
 //@   props C04 C10 C13 C15 C01
@@ -522,7 +522,7 @@ func SerializeParamsText(b Base, in any) string {
 //@   ensures[expression-is-rendered] IsExprVal(in) ==> (err == nil) == (RenderParamErr(b, ExprOf(in)) == nil)
 //@   ensures[boundary-errors-propagate] IsBoundaryVal(in) && err == nil ==> SerializeBoundErr(b, BoundaryOf(in).Min) == nil && SerializeBoundErr(b, BoundaryOf(in).Max) == nil
 //@   ensures[string-leaf-is-one-param] err == nil && IsStrLeaf(in) ==> OneStringParam(params, LeafString(in))
-//@   ensures[column-quoted] IsColumnVal(in) && err == nil ==> len(ColumnOf(in)) > 0 && !strings.ContainsRune(ColumnOf(in), '"') && s == "\""+ColumnOf(in)+"\"" && len(params) == 0
+//@   ensures[column-quoted] IsColumnVal(in) && err == nil ==> len(ColumnOf(in)) > 0 && !strings.ContainsRune(ColumnOf(in), '"') && verifspec.SameText(s, "\""+ColumnOf(in)+"\"") && len(params) == 0
 //@   loop 0: rangeinv true
 
 // ---- validation guards rendering -----------------------------------------------------------------------
